@@ -22,15 +22,67 @@ def c03(tier, seed):
     return check('C03', tier, seed, runs, keyfilter=pref('c03:'), assumptions=ASSUME_COMMON + [
         'bit-linearity argument: the packing is determined by the 165 single-bit seeds and their pairs, which are enumerated completely'])
 
-CHECKS = {'C01': c01, 'C03': c03}
+def c02(tier, seed):
+    runs = [Run('e2_gf', 'plain', []), Run('e2_gf', 'asan', ['--stride', '61' if tier == 'quick' else '7'])]
+    return check('C02', tier, seed, runs, keyfilter=pref('c02:'), assumptions=ASSUME_COMMON + [
+        'linearity argument: doubling checked on all 2048 elements at every Horner depth (part a) and additivity on all pairs of basis polynomials (part b) reduce detection to (position, difference), enumerated completely (part c)'])
+
+def c04(tier, seed):
+    if tier == 'quick':
+        runs = [Run('e2_kdf', 'plain', []), Run('e2_kdf', 'asan', ['--slice', '7'])]
+    else:
+        runs = [Run('e2_kdf', 'plain', []), Run('e2_kdf', 'asan', [])]
+    return check('C04', tier, seed, runs, keyfilter=pref('c04:'), assumptions=ASSUME_COMMON + [
+        'key sizes {0,1,31,32,33,64,4000}; the key buffer ends at a page boundary followed by an inaccessible page and the page is made inaccessible when the KDF stub returns'])
+
+def c05(tier, seed):
+    runs = [Run('e2_coin', 'asan' if tier == 'quick' else 'plain', [])]
+    if tier == 'thorough':
+        runs.append(Run('e2_coin', 'asan', ['--tier', 'quick'], label='e2_coin[asan] quick set'))
+    return check('C05', tier, seed, runs, keyfilter=pref('c05:'), assumptions=ASSUME_COMMON)
+
+def c06(tier, seed):
+    return check('C06', tier, seed, [Run('e2_storage', 'asan', [])], keyfilter=pref('c06:'), assumptions=ASSUME_COMMON + [
+        '2^256 buffers are explored field-wise around valid images: every byte x 256 values, the two header bytes (65536) with stale and with recomputed check values, footer variants, secret top bits x all check values, all 2-bit (and, thorough, 3-bit) flips'])
+
+def c07(tier, seed):
+    return check('C07', tier, seed, [Run('e2_words', 'asan', [])], keyfilter=pref('c07:'), assumptions=ASSUME_COMMON + [
+        'words are observed through polyseed_encode output; the golden lists were extracted once from the pinned commit'])
+
+def c08(tier, seed):
+    runs = [Run('e2_prefix', 'asan', [])]
+    if tier == 'thorough':
+        runs.append(Run('e2_prefix', 'dbg', []))
+    return check('C08', tier, seed, runs, keyfilter=pref('c08:'), assumptions=ASSUME_COMMON + [
+        'accent folding is modelled as removal of every non-ASCII byte after NFKD (Spanish, French); non-ASCII letters that are not accents are outside the claim'])
+
+def c11(tier, seed):
+    runs = [Run('e2_birthday', 'asan', [])]
+    if tier == 'thorough':
+        runs.append(Run('e2_birthday', 'plain', ['every']))
+    return check('C11', tier, seed, runs, keyfilter=pref('c11:'), assumptions=ASSUME_COMMON + ['clock values beyond the documented range (after March 2107) wrap modulo 1024 months; only B <= t is required there'])
+
+def c17(tier, seed):
+    runs = [Run('e2_maxlen', 'asan', [])]
+    if tier == 'thorough':
+        runs.append(Run('e2_maxlen', 'dbg', []))
+    return check('C17', tier, seed, runs, keyfilter=pref('c17:'), assumptions=ASSUME_COMMON + [
+        'phrase length is a sum of independent per-position terms, so per-position maxima over admissible indices give the exact worst case'])
+
+CHECKS = {'C01': c01, 'C02': c02, 'C03': c03, 'C04': c04, 'C05': c05, 'C06': c06, 'C07': c07, 'C08': c08, 'C11': c11, 'C17': c17}
 
 def setup():
     for m in ('plain', 'asan'):
         build.build_lib(m)
+    for prog, modes in SETUP_PROGS:
+        for m in modes:
+            build.build_prog(prog, m, [prog + '.c'])
     return 0
 
+SETUP_PROGS = [('e2_phrase', ['asan']), ('e2_gf', ['plain', 'asan']), ('e2_kdf', ['plain', 'asan']), ('e2_coin', ['asan']),
+               ('e2_storage', ['asan']), ('e2_words', ['asan']), ('e2_prefix', ['asan']), ('e2_birthday', ['asan']), ('e2_maxlen', ['asan'])]
 ENGINES = [
- {'name': 'E2', 'path': 'harness/e2_*.c', 'serves_properties': ['C01', 'C03'],
+ {'name': 'E2', 'path': 'harness/e2_*.c', 'serves_properties': ['C01', 'C02', 'C03', 'C04', 'C05', 'C06', 'C07', 'C08', 'C11', 'C17'],
   'kind_free_text': 'bounded exhaustive enumeration of finite input factors, every case executed on the real API (ASan+UBSan build) and compared with the reference model'},
 ]
 NA = {}
@@ -41,5 +93,29 @@ META = {
    note='Trusted: ' + TB + '. Escapes: effects needing >=3 specific bits in different words outside all backgrounds.'),
  'C03': dict(engine='E2', design_ref='DESIGN.md section 5 C03', technique='exhaustive enumeration of seed factors, byte comparison of every emitted phrase with an independent reference encoder',
    text='Same enumeration as C01 with a different oracle: every phrase emitted by polyseed_encode must be byte-identical to the phrase computed by the reference model (README bit layout, golden word lists, coin XOR, separator, NFC), the stored check value must equal the reference GF(2048) value, and re-encoding after unrelated operations must give the same bytes. A bit-linear packing is pinned by the single-bit seeds and their pairs, which are enumerated completely.',
+   note='Trusted: ' + TB + '.'),
+ 'C02': dict(engine='E2', design_ref='DESIGN.md section 5 C02', technique='complete enumeration of GF(2^11) one-word polynomials x check values through load, distance conditions on the library table, phrases x 16 x 2047 substitutions and 120 swaps',
+   text='All 15 x 2048 x 2048 (position, value, check value) triples go through polyseed_load and exactly the reference product may be accepted; additivity is checked through the create path on all pairs of basis bits (thorough: all pairs of one-word polynomials at 16 position pairs); from the library table every single-word difference must contribute non-zero and no two positions may contribute equally (transposition); base phrases with every word substituted and every pair swapped are decoded by both decoders.',
+   note='Trusted: ' + TB + '. The 2^165 x positions space is reduced by GF(2)-linearity, itself checked exhaustively on the field.'),
+ 'C04': dict(engine='E2', design_ref='DESIGN.md section 5 C04', technique='exhaustive enumeration of coins x birthdays x feature values with a logging KDF stub and page-protected key buffer',
+   text='All 2048 coins x 1024 birthdays x 16 loadable feature values (x secrets) call polyseed_keygen; every argument of the single KDF call is compared with the reference byte strings, mapped back by a constructive inverse, and the key page is made inaccessible when the stub returns so any later access by the library faults. The same abstract seed reached by load, create, decode in 10 languages and crypt twice must give identical inputs (E1 repeats this in every reachable state).',
+   note='Trusted: ' + TB + ', mprotect/SIGSEGV.'),
+ 'C05': dict(engine='E2', design_ref='DESIGN.md section 5 C05', technique='exhaustive enumeration of ordered coin pairs on the real encode/decode',
+   text='English: all 2048 x 2048 ordered (A,B) pairs per seed; other languages all B for 32 A (quick) or all A (thorough, sorted lists). B != A must give the checksum status, B = A the same seed; the phrases for A and coin 0 must differ in exactly the second word, whose index is c1 xor A.',
+   note='Trusted: ' + TB + '. Seeds: zeros, ones (+ pseudo-random in thorough).'),
+ 'C06': dict(engine='E2', design_ref='DESIGN.md section 5 C06', technique='field-wise exhaustive enumeration of 32-byte buffers around valid images against a reference acceptance predicate',
+   text='Every enumerated buffer is given to polyseed_load; status must equal the reference predicate (precedence FORMAT > CHECKSUM > UNSUPPORTED) under masks 0, 5, 7; acceptance implies store(load(buf)) == buf and a seed equal to the fields; rejection leaves nothing allocated. Round trip: seeds made through create must store exactly the reference byte layout.',
+   note='Trusted: ' + TB + '. 2^256 is covered field-wise, not fully.'),
+ 'C07': dict(engine='E2', design_ref='DESIGN.md section 5 C07', technique='complete enumeration of 10 x 2048 words, all pairs per language, 16 positions, observed through the API',
+   text='Every word is obtained from polyseed_encode output and compared with sha256-pinned golden lists; registry names and order; all C(2048,2) pairs per language for equality, shared 4-letter prefixes, prefix relation; strict order under signed and unsigned bytes; every word at every one of the 16 positions decodes to its own index; NFC/NFKD stability; separators. The 197 three-letter prefix pairs of the frozen English/Spanish lists are listed known findings.',
+   note='Trusted: ' + TB + '.'),
+ 'C08': dict(engine='E2', design_ref='DESIGN.md section 5 C08', technique='exhaustive enumeration of prefix x accent-subset x normal-form variants of every word through decode_explicit',
+   text='For every word of every language: every prefix length, every subset of accents kept or dropped, NFD and NFC spelling, wrong continuations, spurious accents, upper case; each variant replaces a word of a checksum-valid phrase and must decode to the same seed iff the rule permits it; statuses also equal the reference decoder. Mixed phrases carry permitted variants in all 16 positions.',
+   note='Trusted: ' + TB + '. Accent folding = removal of non-ASCII bytes after NFKD.'),
+ 'C11': dict(engine='E2', design_ref='DESIGN.md section 5 C11', technique='exhaustive enumeration of clock values (thorough: every second of the 1024-month range) through create with an injected clock',
+   text='quick: all 1024 month boundaries on both sides, first/middle/last second, 0, epoch, 2^31/2^32/2^63/2^64 neighbours, powers of two; thorough: every one of the 2.7e9 seconds from one month before the epoch to one month after the range. The property inequalities are asserted directly and against 128-bit reference arithmetic; all 1024 month indices survive store/load, 10 languages and crypt.',
+   note='Trusted: ' + TB + '.'),
+ 'C17': dict(engine='E2', design_ref='DESIGN.md section 5 C17', technique='exact worst-case computation by exhaustive per-position maxima over the words the library emits + extremal witnesses under ASan',
+   text='Per language x enabled mask x form (output, encode temporary, NFKD) the maximum phrase length is computed exactly from the words the library itself emits and must be below sizeof(polyseed_str); witnesses attaining the per-position maxima are encoded with a canary behind the buffer and decoded back.',
    note='Trusted: ' + TB + '.'),
 }
